@@ -208,6 +208,7 @@ def reload_stratum(chk):
     chk.extra.setdefault("strata_extra", {})["disabled_reload_cases"] = n
     model_replaced_stratum(chk)
     text_values_stratum(chk)
+    eval_conditions_stratum(chk)
 
 
 def text_values_stratum(chk):
@@ -274,6 +275,64 @@ def text_values_stratum(chk):
                 chk.extra.setdefault("strata_extra", {})["text_values_cases"] = n
                 return
     chk.extra.setdefault("strata_extra", {})["text_values_cases"] = n
+
+
+def eval_conditions_stratum(chk):
+    """rules that carry their own conditions: a matcher with TWO eval() columns (and a plain conjunct).  Several rules share
+    the text of their first condition and differ in the second, and the other way round; a rule matches exactly when BOTH of
+    its own conditions hold of the request.  Every request of a small universe, through enforce and enforce_ex, under every
+    documented effect; with the allow-override effect enforce_ex must name the first matching allow rule."""
+    import casbin
+    from types import SimpleNamespace
+    from ..enforce_cases import MODEL
+    rules = [["r.sub == 'alice'", "r.obj == 'data1'", "read", "allow", "t0"], ["r.sub == 'alice'", "r.obj == 'data2'", "read", "deny", "t1"],
+             ["r.sub != 'alice'", "r.obj == 'data1'", "read", "allow", "t2"], ["r.sub == 'alice'", "r.obj != 'data1'", "write", "allow", "t3"],
+             ["r.sub == 'bob'", "r.obj == 'data2'", "read", "allow", "t4"], ["r.sub != 'alice'", "r.obj == 'data2'", "read", "deny", "t5"],
+             ["r.sub == 'bob'", "r.obj == 'data2'", "write", "deny", "t6"]]
+    reqs = [[s_, o, a] for s_ in ("alice", "bob", "carol") for o in ("data1", "data2", "data3") for a in ("read", "write")]
+    n = 0
+    for effect, eidx in EFFECTS:
+        if effect.startswith("subjectPriority"):
+            continue
+        m_text = MODEL.format(pdef="c1, c2, act, eft, tag", effect=effect, e2="", matcher="eval(p.c1) && eval(p.c2) && r.act == p.act")
+        for cls in (casbin.Enforcer, casbin.SyncedEnforcer):
+            for order in (rules, rules[::-1]):
+                e = cls(casbin.Enforcer.new_model(text=m_text))
+                for r in order:
+                    e.add_policy(*r)
+                for req in reqs:
+                    env = {"r": SimpleNamespace(sub=req[0], obj=req[1], act=req[2])}
+                    hits = [r for r in order if eval(r[0], {}, env) and eval(r[1], {}, env) and r[2] == req[2]]
+                    outs = [r[3] for r in hits]
+                    if eidx == 0:
+                        want = "allow" in outs
+                    elif eidx == 1:
+                        want = "deny" not in outs
+                    elif eidx == 2:
+                        want = "allow" in outs and "deny" not in outs
+                    else:
+                        want = bool(outs) and outs[0] == "allow"
+                    n += 1
+                    chk.count(("eval-conditions", eidx, cls.__name__, order is rules, tuple(req)))
+                    try:
+                        got = bool(e.enforce(*req))
+                        gx = e.enforce_ex(*req)
+                        got2, why = bool(gx[0]), list(gx[1])
+                    except Exception as exc:  # noqa
+                        got, got2, why = "raise", repr(exc)[:80], None
+                    bad = got != want or got2 != want
+                    want_why = None
+                    if not bad and eidx == 0:
+                        want_why = next((r for r in hits if r[3] == "allow"), [])
+                        bad = why != want_why
+                    if bad:
+                        chk.spec_fail(dict(stratum="eval-conditions", effect=effect, enforcer=cls.__name__, rules=order, request=req),
+                                      dict(enforce=got, enforce_ex=got2, explanation=why), dict(decision=want, explanation=want_why),
+                                      "a rule with two eval() conditions matches exactly when both of ITS OWN conditions hold: the decision "
+                                      "(or the explaining rule) is not that of the matching rules")
+                        chk.extra.setdefault("strata_extra", {})["eval_conditions_cases"] = n
+                        return
+    chk.extra.setdefault("strata_extra", {})["eval_conditions_cases"] = n
 
 
 def model_replaced_stratum(chk):
@@ -686,10 +745,10 @@ def replay(chk, explain):
             sys.exit(1)
         print("replay passes: implementation agrees with the spec on every ask of this history")
         sys.exit(0)
-    if c.get("stratum") in ("model-replaced", "disabled-survives-reload", "text-values"):
+    if c.get("stratum") in ("model-replaced", "disabled-survives-reload", "text-values", "eval-conditions"):
         # these strata are cheap and deterministic: re-run them and report what they report
         chk.spec_failures = []
-        dict([("model-replaced", model_replaced_stratum), ("disabled-survives-reload", reload_stratum), ("text-values", text_values_stratum)])[c["stratum"]](chk)
+        dict([("model-replaced", model_replaced_stratum), ("disabled-survives-reload", reload_stratum), ("text-values", text_values_stratum), ("eval-conditions", eval_conditions_stratum)])[c["stratum"]](chk)
         hit = [f for f in chk.spec_failures if f["case"].get("stratum") == c["stratum"]]
         if hit:
             print("replay:", json.dumps(hit[0])[:700])
